@@ -9,6 +9,7 @@ import BfeVerif.C01.Model
                         now − 500000 s (hook), i.e. updateSlowStart observes elapsed = 500000 s
     `ss 1000000`        SetSlowStart(1000000)   (seconds; 0 = off)
     `rs 2`              SetRestart(true) on backend id 2 (what the health checker does when it comes back)
+    `sticky`            one Balance(WrrSticky, "k") call: ensureSortedUnlocked sorts the list by AddrInfo (string order)
     `av 1 0`            SetAvail(false) on backend id 1
     `upd 0:3,2:1,5:4`   BalanceRR.Update with this conf (id:weight; members kept/dropped/added)
   result per op, joined by `|`:  `ok`  or, for `bal`, `p=<ids returned, e = error>;c=<current>;w=<weight>;s=<inSlowStart 0/1>;f=<weightSS.final>` of every list entry
@@ -21,6 +22,7 @@ inductive Op where
   | bal (k : Nat) (e : Nat)      -- k calls; every backend in slow start observes `e` seconds elapsed
   | ss (t : Int)                -- SetSlowStart(t)
   | rs (id : Nat)               -- backend.SetRestart(true), as the health checker does
+  | sticky                      -- one Balance(WrrSticky, key) call on the same BalanceRR: it SORTS brr.backends by AddrInfo
   | av (id : Nat) (v : Bool)
   | upd (c : List (Nat × Int))
 
@@ -52,6 +54,7 @@ def parseOp (s : String) : Option Op :=
     | _ => none
   | ["ss", t] => t.toInt?.map Op.ss
   | ["rs", i] => i.toNat?.map Op.rs
+  | ["sticky"] => some Op.sticky
   | ["av", i, v] => i.toNat?.map fun i => Op.av i (v == "1")
   | ["upd", c] => (parsePairs c).map Op.upd
   | _ => none
@@ -90,6 +93,18 @@ def updateModel (conf : List (Nat × Int)) (implIds : List Nat) (st : St) : St :
   let all := kept ++ added
   { st with ids := all.map (·.1), l := all.map (·.2) }
 
+/-- AddrInfo of backend `id` in the harness: "10.0.<id/250>.<id%250>:80"; BackendListSorter compares these STRINGS -/
+def addrInfo (id : Nat) : String := "10.0." ++ toString (id / 250) ++ "." ++ toString (id % 250) ++ ":80"
+
+def insertByAddr (x : Nat × SS) : List (Nat × SS) → List (Nat × SS)
+  | [] => [x]
+  | y :: ys => if addrInfo x.1 < addrInfo y.1 then x :: y :: ys else y :: insertByAddr x ys
+
+/-- sort.Sort(BackendListSorter): the keys are distinct, so the result is unique -/
+def sortByAddr : List (Nat × SS) → List (Nat × SS)
+  | [] => []
+  | x :: xs => insertByAddr x (sortByAddr xs)
+
 def showDump (st : St) : String :=
   "c=" ++ joinC (st.l.map fun s => toString s.b.current)
     ++ ";w=" ++ joinC (st.l.map fun s => toString s.b.weight)
@@ -118,6 +133,10 @@ def modelOp (st : St) (res : String) : Op → St × String
       let st' := updateModel c (((parseField "i" res).getD []).map Int.toNat) st
       (st', "ok;" ++ showDump st')
   | .ss t => ({ st with T := t }, "ok")
+  | .sticky =>
+    let srt := sortByAddr (st.ids.zip st.l)
+    let st' := { st with ids := srt.map (·.1), l := srt.map (·.2) }
+    (st', "ok;" ++ showDump st')
   | .rs id =>
     let i := st.ids.idxOf id
     ((if i < st.ids.length then { st with l := st.l.modify i fun s => { s with restarted := true } } else st), "ok")
@@ -278,6 +297,24 @@ def oracleOp (o : OSt) (op : Op) (res : String) : OSt :=
         { o with seq := o.seq ++ ps, pristine := false, lastC := cv, fails := extra ++ wfails.reverse ++ o.fails }
     | _, _ => { o with fails := ("bad-result") :: o.fails }
   | .ss t => { o with T := t, tags := "ss-set" :: o.tags }
+  | .sticky =>
+    let oldI := o.dIds
+    let oldC := o.dC
+    let oldW := o.dW
+    let o := recordDump o res
+    -- a sticky call may only re-order the list: same members, same weight and current per member
+    let sameVals := o.dIds.length == oldI.length && oldI.all fun id =>
+      atId o.dIds o.dC id == atId oldI oldC id && atId o.dIds o.dW id == atId oldI oldW id && (atId o.dIds o.dW id).isSome
+    let o := if sameVals then o else { o with fails := "sticky-changed-state" :: o.fails }
+    if o.dIds == oldI then { o with tags := "sticky" :: o.tags } else
+    -- the list order = the tie-break order of smoothBalance changed.  At a period boundary of a steady run every
+    -- current equals its weight and the run continues as the canonical run of the re-ordered list (exact windows);
+    -- anywhere else the change of the tie-break rule in mid-period is a transient (known finding sticky-sort-window)
+    let W := periodOf o.cfg
+    let boundary := o.phase == "steady" && (o.pristine || (W > 0 && o.seq.size % W == 0))
+    let o := judge o
+    { o with phase := if boundary then o.phase else "sticky-sort", lastC := [],
+             tags := (if boundary then "sticky-sort-boundary" else "sticky-sort") :: o.tags }
   | .rs id =>
     if o.cfg.any (·.id == id) then
       { o with cfg := o.cfg.map (fun x => if x.id == id then { x with pend := true } else x) }
